@@ -203,6 +203,7 @@ type pipe struct {
 	reset        bool
 	rclosed      bool // reader closed: arriving data is answered with a reset
 	auto         bool
+	rstAfter     bool // reset the connection once everything written so far has been delivered
 	stalled      bool
 	sent         int64
 	delivered    int64
@@ -408,6 +409,19 @@ func (c *Conn) Reset() {
 	c.n.mu.Lock()
 	c.resetLocked("fault")
 	c.n.mu.Unlock()
+}
+
+// ResetAfterDelivery makes the connection reset (as seen by both ends) as soon as the bytes this end has
+// written so far have been delivered: "the peer died after sending n bytes".
+func (c *Conn) ResetAfterDelivery() {
+	c.n.mu.Lock()
+	defer c.n.mu.Unlock()
+	if c.out.auto || len(c.out.inflight) == 0 {
+		c.resetLocked("fault")
+		return
+	}
+	c.out.rstAfter = true
+	c.n.cond.Broadcast()
 }
 
 // Stall stops (or resumes) delivery of the bytes this end writes.
@@ -708,6 +722,11 @@ func (n *Net) deliver(e *Conn) {
 	data := append([]byte(nil), p.inflight[:k]...)
 	p.inflight = p.inflight[k:]
 	n.deliverLocked(e, data)
+	if p.rstAfter && len(p.inflight) == 0 {
+		p.rstAfter = false
+		e.in.reset, e.out.reset = true, true // delivered data stays readable: Read returns buffered bytes before the reset
+		e.in.inflight = nil
+	}
 	if n.R != nil {
 		dir := "c2s"
 		if e.server {
